@@ -53,7 +53,7 @@ impl C01 {
             seed,
             n_tiny: tiny::chunks_le3() + tier.pick(0, tiny::chunks_eq4()),
             n_edge: wrap::N_EDGE * tier.pick(20, 400),
-            n_asm: scaled(tier.pick(8_000, 200_000), scale),
+            n_asm: scaled(tier.pick(8_000, 100_000), scale),
             n_samples: tier.pick(8, 200),
         }
     }
